@@ -55,6 +55,17 @@ TIERS = {
 }
 
 
+def run_tlc(*a, **kw):
+    """vlib.run_tlc; a JVM killed from outside (SIGKILL: the machine ran out of memory) is started again"""
+    import time
+    for attempt in range(3):
+        res = vlib.run_tlc(*a, **kw)
+        if res['rc'] not in (-9, 137):
+            return res
+        time.sleep(20 * (attempt + 1))
+    return res
+
+
 def consts(d, **over):
     c = dict(BASE_CONST)
     c.update({k: str(v) for k, v in d.items()})
@@ -64,6 +75,8 @@ def consts(d, **over):
 
 # ---- TLC with -dump, processed in parallel -----------------------------------------------------
 class Dump:
+    heap = '2g'
+
     def __init__(self, cfg, constants, workers, label, coverage=False):
         self.cfg, self.constants, self.workers, self.label = cfg, constants, workers, label
         self.coverage = coverage
@@ -72,8 +85,8 @@ class Dump:
         self.res = None
 
     def run(self):
-        self.res = vlib.run_tlc('MC_C17', cfg=self.cfg, constants=self.constants, workers=self.workers,
-                                extra=('-dump', self.path), heap='6g', timeout=3000, coverage=self.coverage)
+        self.res = run_tlc('MC_C17', cfg=self.cfg, constants=self.constants, workers=self.workers,
+                                extra=('-dump', self.path), heap=self.heap, timeout=3000, coverage=self.coverage)
         return self
 
     def close(self):
@@ -522,7 +535,7 @@ def validate_trace(check, rows, label, chunk):
         def one(ci):
             path = os.path.join(scratch, 'rows_%d.ndjson' % ci)
             vlib.write_ndjson(path, chunks[ci])
-            return ci, vlib.run_tlc('Trace_C17', workers=1, env={'TRACE_FILE': path}, timeout=3000)
+            return ci, run_tlc('Trace_C17', workers=1, env={'TRACE_FILE': path}, timeout=3000, heap='1g')
         with ThreadPoolExecutor(max_workers=min(8, len(chunks))) as ex:
             for ci, res in ex.map(one, range(len(chunks))):
                 vlib.tlc_must_pass(res, 'Trace_C17 chunk %d' % ci)
@@ -584,7 +597,7 @@ def spec_mutants(check):
 
     def one(r):
         cfg, over, label = r
-        return label, vlib.run_tlc('MC_C17', cfg=cfg, constants=consts(base, **over), workers=4, timeout=1500)
+        return label, run_tlc('MC_C17', cfg=cfg, constants=consts(base, **over), workers=4, timeout=1500)
     out = {}
     with ThreadPoolExecutor(max_workers=3) as ex:
         for label, res in ex.map(one, runs):
@@ -599,6 +612,7 @@ def spec_mutants(check):
 def main(tier, seed):
     check = vlib.Check(PROP, tier, seed)
     cfgd = TIERS[tier]
+    Dump.heap = '6g' if tier == 'thorough' else '2g'
     jobs = [Dump('MC_C17_cases', consts(cfgd['cases']), 8, 'cases'),
             Dump('MC_C17_pull', consts(cfgd['pulldump']), 4, 'pull'),
             Dump('MC_C17_build', consts(cfgd['build']), 2, 'build', coverage=(tier == 'thorough'))]
@@ -612,11 +626,11 @@ def main(tier, seed):
     try:
         with ThreadPoolExecutor(max_workers=10) as ex:
             futs = [ex.submit(j.run) for j in jobs]
-            laws = ex.submit(vlib.run_tlc, 'MC_C17', cfg='MC_C17', constants=consts(cfgd['laws']), workers=4,
+            laws = ex.submit(run_tlc, 'MC_C17', cfg='MC_C17', constants=consts(cfgd['laws']), workers=4, heap='2g',
                              timeout=3000, coverage=cover)
-            plaws = [(k, ex.submit(vlib.run_tlc, 'MC_C17', cfg='MC_C17_pull_safety' if k == 'pull3' else 'MC_C17_pull',
+            plaws = [(k, ex.submit(run_tlc, 'MC_C17', cfg='MC_C17_pull_safety' if k == 'pull3' else 'MC_C17_pull',
                                    constants=consts(cfgd[k]), workers=8 if k == 'pull3' else 6,
-                                   timeout=6000, heap='8g', coverage=cover and k == 'pull2'))
+                                   timeout=6000, heap='6g' if tier == 'thorough' else '2g', coverage=cover and k == 'pull2'))
                      for k in ('pull', 'pull2', 'pull3') if k in cfgd]
             tr = ex.submit(validate_trace, check, rows, 'random-pipelines', cfgd['chunk'])
             trbad = ex.submit(validate_trace, vlib.Check(PROP, tier, seed), bad_rows, 'corrupted', 10)
